@@ -131,7 +131,7 @@ async def ble_case(ctx, negotiated, body_len, secure, status, cuts, rbody_len, o
     if secure:
         ctx.count("ble_encrypted_requests")
     # ---- response side ----
-    needs_cont = rbody is not None and len([c for c in (cuts or []) if 0 < c < len(rbody)]) > 0
+    needs_cont = rbody is not None and len([c for c in (cuts or []) if 0 <= c < len(rbody)]) > 0
     if negative:
         applicable = negative == "tid-first" or needs_cont
         if applicable:
@@ -177,7 +177,7 @@ async def ble_part(ctx) -> None:
                 await ble_case(ctx, size + (16 if secure else 0), blen, secure, 0, [100, 300], 700, "CHAR_WRITE", 33, seed=idx)
     # response fragmentation: every 1-/2-cut for small bodies, statuses 0..6
     for rlen in ctx.pick([0, 1, 2, 5, 12, 30], [0, 1, 2, 3, 5, 8, 12, 20, 30, 45]):
-        cutsets = [()] + [(c,) for c in range(1, rlen)] + list(itertools.combinations(range(1, rlen), 2))
+        cutsets = [()] + [(c,) for c in range(0, rlen)] + list(itertools.combinations(range(0, rlen), 2))  # cut 0 = header-only first fragment
         for cuts in cutsets:
             for status in range(0, 7):
                 for secure in (False, True):
@@ -204,7 +204,7 @@ async def ble_part(ctx) -> None:
             continue
         r = ctx.grng("C17.ble.rand", k)
         rlen = r.choice([100, 255, 256, 700, 2000])
-        cuts = sorted(r.sample(range(1, rlen), r.randint(1, 12)))
+        cuts = sorted(r.sample(range(0 if r.random() < 0.3 else 1, rlen), r.randint(1, 12)))
         ctx.case("ble-resp-rand", k, sample={"transport": "ble", "response_body_len": rlen, "accessory_cuts": cuts}, kind="ble-resp-rand")
         await ble_case(ctx, r.choice([23, 64, 155, 512]) + 16, r.randrange(0, 600), r.random() < 0.5, r.randrange(0, 7), cuts, rlen, "CHAR_READ", r.randrange(1, 65536), seed=k)
 
